@@ -1005,9 +1005,61 @@ def r9_addition_is_additive(ctx: Context, rule: str = "C04.R9") -> None:
     ctx.floor(rule, "ledgers summed in Resources.__add__", done, 3)
 
 
+def r2b_rollback_is_exact(ctx: Context, rule: str = "C04.R2b") -> None:
+    from .. import lin
+    ctx.rule(rule, "the rollback of Resources.allocate_multiple gives back exactly what this call took: the ledger length of the "
+                   "computation is snapshotted before the loop (0 when it has no entry), the handler returns the entries from the "
+                   "snapshot on (`+=` each quantity to its resource), deletes exactly those entries and re-raises")
+    cls = _cls_node(ctx.repo, "Resources")
+    fn = method(cls, "allocate_multiple")
+    tries = [t for t in ast.walk(fn) if isinstance(t, ast.Try) and calls_in(ast.Module(body=t.body, type_ignores=[]), "allocate")]
+    ctx.floor(rule, "try around the allocating loop", len(tries), 1)
+    tr = tries[0]
+    comp = next((norm(k.value) for c in calls_in(ast.Module(body=tr.body, type_ignores=[]), "allocate") for k in c.keywords if k.arg == "computation"), "computation")
+    # snapshot
+    snaps = [a for a in fn.body if isinstance(a, ast.Assign) and isinstance(a.targets[0], ast.Name) and a.lineno < tr.lineno and "len(" in norm(a.value)]
+    ok_s = False
+    snap = None
+    if snaps:
+        snap = snaps[-1].targets[0].id
+        v = snaps[-1].value
+        if isinstance(v, ast.IfExp):
+            t = lin.formula(v.test)
+            has = lin.formula(ast.parse(f"{comp} in self._current_allocations", mode="eval").body)
+            ln = f"len(self._current_allocations[{comp}])"
+            zero = lambda e: isinstance(e, ast.Constant) and e.value == 0  # noqa: E731
+            ok_s = (lin.equivalent(t, has) and norm(v.body) == ln and zero(v.orelse)) or (lin.equivalent(t, lin.f_not(has)) and norm(v.orelse) == ln and zero(v.body))
+        elif isinstance(v, ast.Call) and call_name(v) == "len" and ".get(" in norm(v):
+            ok_s = True
+    ctx.check(ok_s, rule, "Resources.allocate_multiple|snapshot = number of entries the computation held before", loc(snaps[-1]) if snaps else loc(fn),
+              f"{snap} = len(ledger[comp]) if comp in ledger else 0",
+              "the snapshot taken before allocating is not the number of ledger entries the computation already held: a refused request "
+              "rolls back entries of an earlier, successful request too (or keeps part of the refused one)")
+    for h in tr.handlers:
+        hb = ast.Module(body=h.body, type_ignores=[])
+        loops = [l for l in ast.walk(hb) if isinstance(l, ast.For)]
+        give = [a for l in loops for a in ast.walk(l) if isinstance(a, ast.AugAssign) and isinstance(a.target, ast.Subscript) and is_self_attr(a.target.value, "_resource_vector")]
+        ok_l = False
+        for l in loops:
+            it = l.iter
+            if isinstance(it, ast.Subscript) and isinstance(it.slice, ast.Slice) and it.slice.lower is not None and norm(it.slice.lower) == snap and it.slice.upper is None \
+                    and isinstance(l.target, ast.Tuple) and len(l.target.elts) == 2:
+                r, q = norm(l.target.elts[0]), norm(l.target.elts[1])
+                ok_l = any(isinstance(a.op, ast.Add) and norm(a.target.slice) == r and norm(a.value) == q for a in give)
+        ctx.check(ok_l, rule, "Resources.allocate_multiple|handler returns the entries added since the snapshot", loc(h), f"for r, q in entries[{snap}:]: vector[r] += q",
+                  "the handler does not add back exactly the quantities recorded since the snapshot")
+        dels = [d for d in ast.walk(hb) if isinstance(d, ast.Delete) and isinstance(d.targets[0], ast.Subscript) and isinstance(d.targets[0].slice, ast.Slice)]
+        ok_d = any(d.targets[0].slice.lower is not None and norm(d.targets[0].slice.lower) == snap and d.targets[0].slice.upper is None for d in dels)
+        ctx.check(ok_d, rule, "Resources.allocate_multiple|handler deletes exactly the entries added since the snapshot", loc(h), f"del entries[{snap}:]",
+                  "the ledger keeps (or loses) entries after a refused request")
+        ok_r = bool(h.body) and isinstance(h.body[-1], ast.Raise) and h.body[-1].exc is None
+        ctx.check(ok_r, rule, "Resources.allocate_multiple|handler re-raises", loc(h), "raise", "the refusal is swallowed: callers register a computation that holds nothing")
+
+
 def run(ctx: Context) -> None:
     ctx.isolate(r1_coindexed)
     ctx.isolate(r2_refusal_changes_nothing)
+    ctx.isolate(r2b_rollback_is_exact)
     ctx.isolate(r3_deallocate)
     ctx.isolate(r4_r5_copies)
     ctx.isolate(r6_removal_on_finish)
